@@ -80,8 +80,10 @@ def plan(tier):
         n_t, per_t, n_b, per_b, n_c = 56, 260, 8, 400, 8
     shards = [{"kind": "hyp", "name": f"type{i}", "examples": per_t, "what": "type"} for i in range(n_t)]
     shards += [{"kind": "hyp", "name": f"bf{i}", "examples": per_b, "what": "bitfield"} for i in range(n_b)]
-    n_p, per_p = (1, 12) if tier == "quick" else (4, 200)
+    n_p, per_p = (1, 10) if tier == "quick" else (4, 200)
     shards += [{"kind": "hyp", "name": f"pair{i}", "examples": per_p, "what": "tmplpair"} for i in range(n_p)]
+    n_h, per_h = (1, 12) if tier == "quick" else (4, 250)
+    shards += [{"kind": "hyp", "name": f"hist{i}", "examples": per_h, "what": "inherit_hist"} for i in range(n_h)]
     shards += [{"kind": "enum", "name": f"catalog{i}", "part": i, "parts": n_c, "tier": tier} for i in range(n_c)]
     return shards
 
@@ -91,6 +93,8 @@ def strategy(shard):
         return G.bitfield_case()
     if shard["what"] == "tmplpair":
         return G.tmplpair_case()
+    if shard["what"] == "inherit_hist":
+        return G.inherit_hist_case()
     return G.type_case(depth=3)
 
 
@@ -291,6 +295,8 @@ def _top(spec):
     k = spec["k"]
     if k == "rec":
         if spec.get("ext"):
+            if spec["ext"]["expr"].startswith("C"):
+                return "rec:chain_derived" if spec.get("base") else "rec:chain_base"
             return "rec:tmpl_derived" if spec.get("base") else "rec:tmpl_base"
         tm = spec.get("tmpl")
         return "rec:" + (tm["kind"] if tm else ("inherit" if spec.get("base") else "plain"))
@@ -720,7 +726,7 @@ def _check_type_inner(case):
         do_t = nleaf <= 30 and (h % 8 == 0 if case.get("catalog") else h % 4 == 0)
         do_s = nleaf <= 24 and (h % 5 == 0 if case.get("catalog") else h % 2 == 0)
         if case.get("force_ts"):
-            do_s = nleaf <= 40
+            do_s = nleaf <= 40 and case["force_ts"] in ("s", "ts")
             do_t = do_s and case["force_ts"] == "ts"
         if do_t:
             chk.count("cases.T_tried." + _top(spec))
@@ -1080,6 +1086,55 @@ def _check_tmplpair(case):
         unload_module(pre)
 
 
+# ---------------------------------------------------------------------------------- inheritance chains, serialisation history
+def _check_inherit_hist(case):
+    """C0 <- C1 (<- C2) and an aggregate of two chain classes; the classes are serialised for the first
+    time in the drawn order (directly, or as members of the aggregate).  Record layouts are cached lazily per
+    class: whatever the history, every class must have the width / layout of its own (inherited + own) members."""
+    out = Outcome()
+    out.identity = case_id({k: v for k, v in case.items() if k != "draws"})
+    out.labels.append("top:inherit_hist")
+    out.labels.append("first:" + case["order"][0])
+    name = f"cvpre_{next(_pair_counter)}"
+    try:
+        pre = load_module(G.render_inherit_prelude(case), name=name)
+    except (KeyboardInterrupt, SystemExit, RecursionError, MemoryError, SyntaxError):
+        raise
+    except Exception as e:  # noqa: BLE001
+        out.status = "rejected"
+        out.labels.append(f"rejected:define:{type(e).__name__}")
+        return out
+    try:
+        def chain_spec(k):
+            inherited = [[n, dict(fs)] for lv in case["levels"][:k] for n, fs in lv]
+            own = [[n, dict(fs)] for n, fs in case["levels"][k]]
+            return {"k": "rec", "base": inherited, "fields": own, "tmpl": None, "ext": {"module": name, "expr": f"C{k}"}}
+
+        specs = {f"c{k}": chain_spec(k) for k in range(len(case["levels"]))}
+        i, j = case["agg"]
+        specs["agg"] = {"k": "rec", "base": [], "fields": [["a", chain_spec(i)], ["b", chain_spec(j)]], "tmpl": None}
+        n_ok = 0
+        last = case["order"][-1]
+        for item in case["order"]:
+            sp = specs[item]
+            w = L.width(sp)
+            sub = _check_type({"kind": "type", "spec": sp, "draws": [d & ((1 << w) - 1) for d in case["draws"]],
+                               "force_ts": "s" if item == last else "none"})
+            out.findings += sub.findings
+            out.labels += [l for l in sub.labels if not l.startswith(("top:", "depth:", "has:", "even", "uneven"))]
+            for k, v in sub.counters.items():
+                out.counters[k] = out.counters.get(k, 0) + v
+            if sub.status in ("blocked", "blocked_by_static"):
+                out.status = sub.status
+            n_ok += sub.status != "rejected"
+        if n_ok == 0:
+            out.status = "rejected"
+        out.nontrivial = n_ok == len(case["order"])
+        return out
+    finally:
+        unload_module(pre)
+
+
 # ---------------------------------------------------------------------------------- entry points
 def check(case):
     with _quiet():  # cohdl prints diagnostics when it rejects something
@@ -1087,6 +1142,8 @@ def check(case):
             return _check_bitfield(case)
         if case["kind"] == "tmplpair":
             return _check_tmplpair(case)
+        if case["kind"] == "inherit_hist":
+            return _check_inherit_hist(case)
         return _check_type(case)
 
 
@@ -1104,6 +1161,10 @@ def view(case):
         src = G.render_pair_prelude(case)
         return {"kind": "tmplpair", "types": src[len(G.HEADER):].strip().splitlines(), "enum": case["enum"],
                 "draws": case.get("draws")}
+    if case["kind"] == "inherit_hist":
+        src = G.render_inherit_prelude(case)
+        return {"kind": "inherit_hist", "types": src[len(G.HEADER):].strip().splitlines(), "aggregate": case["agg"],
+                "first_serialisation_order": case["order"], "draws": case.get("draws")}
     spec = case["spec"]
     if case["kind"] == "bitfield":
         src = G.render_bitfield_module(spec)
